@@ -16,7 +16,9 @@ type pollQueue struct {
 
 func newPollQueue() *pollQueue {
 	return &pollQueue{
-		ready: make(chan struct{}),
+		// Buffered: a signal sent between a consumer's emptiness check
+		// and its wait must not be lost.
+		ready: make(chan struct{}, 1),
 	}
 }
 
@@ -29,12 +31,20 @@ func (pq *pollQueue) poll(pollTimeout time.Duration) []*parser.Packet {
 		return packets
 	}
 
-	select {
-	case <-pq.ready:
-		packets = pq.get()
-	case <-time.After(pollTimeout):
+	timeout := time.After(pollTimeout)
+	for {
+		select {
+		case <-pq.ready:
+			// The signal can be stale (the packets were already taken
+			// by a previous `get`). Keep waiting in that case.
+			packets = pq.get()
+			if len(packets) > 0 {
+				return packets
+			}
+		case <-timeout:
+			return pq.get()
+		}
 	}
-	return packets
 }
 
 // add a packet to the queue and signal the other goroutine (if any).
